@@ -48,6 +48,37 @@ Inductive register_mode :=
 | RegFresh         (* _register_fn: fresh name on a clash; _parameter_names: distinct parameters *)
 | RegUnknown.      (* the extractor did not recognise the way definitions are stored *)
 
+(** [_parameter_names]: against what a candidate name of a repeated argument is checked *)
+Inductive pn_check :=
+| PnAllArgs        (* while name in names or (name != arg and name in args): parameters emitted so far
+                      AND every model name of the argument list (also the LATER positions) *)
+| PnEmittedOnly    (* while name in names: only the parameters emitted so far (seeded change C11-1) *)
+| PnUnknown.
+
+(** [_register_fn]: when may a new definition share the name of a registered one *)
+Inductive ic_test :=
+| IcPositional     (* the positional forms (_positional_fn) of the registered and the new definition are equal *)
+| IcSubstFirst     (* substituted expressions equal, OR positional forms equal (seeded change C11-2) *)
+| IcUnknown.
+
+(** [_fn_to_symbolic_repr]: how the model names get into the expression *)
+Inductive rn_mode :=
+| RnDelegated      (* fn_to_sympy(fn, origin=k, model_args=args): one simultaneous replacement inside
+                      fn_to_sympy (property C06; fix 0dc9d5d) *)
+| RnSequential     (* translated once in the function's own parameter names, then
+                      expr.subs([(formal_1, arg_1), ...]) -- sequential (seeded change C11-3) *)
+| RnUnknown.
+
+(** how plain numbers, units and the imports of the generated file are written (the text AROUND the
+    definitions; the Z-valued model below assumes that a written number reads back as itself) *)
+Inductive emit_mode :=
+| EmSympy15        (* the snapshot: numbers through SymPy's printer (15 significant digits: 0.1 + 0.2 is
+                      written as 0.3), units as bare names after [value=], no import for math.* --
+                      recorded findings C11-emit-number-literals / -math-import / -units *)
+| EmExact          (* fixes/C11-emitted-numbers-imports-units.diff: repr of the float, units through
+                      sympy.physics.units or ValueError, imports for the modules the text refers to *)
+| EmUnknown.
+
 Record gen_facts := mkGenFacts {
   gf_var_key : key_scheme;     (* _codegen_variable *)
   gf_par_key : key_scheme;     (* _codegen_parameter *)
@@ -57,7 +88,11 @@ Record gen_facts := mkGenFacts {
   gf_register : register_mode; (* how a definition is stored under its key *)
   gf_codegen_shape : bool;     (* the remaining text of the three code generators and of
                                   sympy_to_python_fn is, statement for statement, the modelled one *)
-  gf_symrepr_shape : bool      (* same for _fn_to_symbolic_repr / _to_symbolic_repr / generate_mxlpy_code *)
+  gf_symrepr_shape : bool;     (* same for _fn_to_symbolic_repr / _to_symbolic_repr / generate_mxlpy_code *)
+  gf_param_check : pn_check;   (* _parameter_names: the while condition *)
+  gf_interchange : ic_test;    (* _register_fn: the while condition *)
+  gf_rename : rn_mode;         (* _fn_to_symbolic_repr: who puts the model names in *)
+  gf_emit : emit_mode          (* numbers / units / imports of the emitted text *)
 }.
 
 (** ---- string-keyed insertion-ordered dict -------------------------------------------- *)
@@ -80,6 +115,66 @@ Fixpoint sfind {A} (k : string) (d : list (string * A)) : option nat :=
   | [] => None
   | (k', _) :: r => if String.eqb k k' then Some 0%nat
                     else match sfind k r with Some i => Some (S i) | None => None end
+  end.
+
+(** ---- _parameter_names (strings only; no expression type involved) ------------------------
+    for arg in args:
+        name = arg; i = 1
+        while name in names or (name != arg and name in args): name = f"{arg}_{i}"; i += 1
+        names.append(name)
+    The candidates are arg, arg_1, arg_2, ... ([pcand arg i], i = 0, 1, ...).  [None] = fuel exhausted
+    (proved unreachable: ParamNames.parameter_names_total). *)
+Definition pdec (i : nat) : string := NilEmpty.string_of_uint (Nat.to_uint i).
+Definition pcand (arg : string) (i : nat) : string :=
+  match i with O => arg | S _ => arg ++ "_" ++ pdec i end.
+
+Definition mem_str (x : string) (l : list string) : bool := existsb (String.eqb x) l.
+
+Definition pn_blocked (check : pn_check) (arg name : string) (names args : list string) : bool :=
+  mem_str name names
+  || match check with
+     | PnAllArgs => negb (String.eqb name arg) && mem_str name args
+     | _ => false
+     end.
+
+Fixpoint pn_find (fuel : nat) (check : pn_check) (arg : string) (i : nat) (names args : list string)
+  : option string :=
+  match fuel with
+  | O => None
+  | S fuel' =>
+    let name := pcand arg i in
+    if pn_blocked check arg name names args then pn_find fuel' check arg (S i) names args
+    else Some name
+  end.
+
+Fixpoint pn_loop (check : pn_check) (todo names args : list string) : option (list string) :=
+  match todo with
+  | [] => Some names
+  | arg :: rest =>
+    match pn_find (S (length names + length args)) check arg 0 names args with
+    | None => None
+    | Some name => pn_loop check rest (names ++ [name]) args
+    end
+  end.
+
+Definition parameter_names (check : pn_check) (args : list string) : option (list string) :=
+  pn_loop check args [] args.
+
+(** the value a NAME of the body sees when the def is called positionally: CPython binds the
+    parameters left to right; they are pairwise different (else the def does not compile), so the
+    association list is a function *)
+Fixpoint sbind (x : string) (ps : list string) (vs : list Z) : option Z :=
+  match ps, vs with
+  | p :: ps', v :: vs' => if String.eqb x p then Some v else sbind x ps' vs'
+  | _, _ => None
+  end.
+
+(** [_register_fn]'s test, built from SymPy's two comparisons (external) *)
+Definition interchange_test {X : Type} (ic : ic_test) (subst_eq same_fn : X -> X -> bool) (q p : X) : bool :=
+  match ic with
+  | IcPositional => same_fn q p
+  | IcSubstFirst => subst_eq q p || same_fn q p
+  | IcUnknown => false
   end.
 
 Section SymRepr.
